@@ -42,6 +42,9 @@ type Sub struct {
 	// FinalPay is what participant 0 pays in the finalizing update (a last payment bundled
 	// with the final flag), clamped to its balance.
 	FinalPay int64 `json:"final_update_pays"`
+	// ParentSteps are payments in the parent between the sub-channel becoming final and its
+	// settlement into the parent.
+	ParentSteps []Step `json:"parent_payments_before_the_settlement,omitempty"`
 }
 
 // Scenario is one generated program.
@@ -58,6 +61,8 @@ type Scenario struct {
 	Secondary   [2]bool   `json:"secondary"`
 	Dur         uint64    `json:"challenge_duration"`
 	Noise       int       `json:"bus_noise"`
+	// NoWatch: the party does not run Channel.Watch (it is optional for an honest user).
+	NoWatch [2]bool `json:"does_not_watch"`
 }
 
 // Generate draws a scenario.
@@ -110,12 +115,18 @@ func Generate(rng *rand.Rand) Scenario {
 		if rng.Intn(2) == 0 {
 			sub.FinalPay = int64(1 + rng.Intn(4))
 		}
+		if sub.Close && rng.Intn(3) == 0 {
+			sub.ParentSteps = steps(1 + rng.Intn(2))
+		}
 		sc.Sub = sub
 		if !sub.Close {
 			// a ledger channel with an open sub-channel cannot be closed cooperatively
 			// (the library refuses): such scenarios end in a dispute
 			sc.FinalLast = false
 		}
+	}
+	if rng.Intn(5) == 0 {
+		sc.NoWatch[rng.Intn(2)] = true
 	}
 	return sc
 }
@@ -210,6 +221,7 @@ func New(rng *rand.Rand, sc Scenario) *Run {
 		}
 	})
 	r.P[0], r.P[1] = r.W.NewParty("A", 1000), r.W.NewParty("B", 1000)
+	r.P[0].NoWatch, r.P[1].NoWatch = sc.NoWatch[0], sc.NoWatch[1]
 	for i := range r.P {
 		i := i
 		p := r.P[i]
@@ -433,6 +445,12 @@ func (r *Run) subChannel() bool {
 	r.pay(r.SubCh, Step{Who: 0, Asset: 0, Amount: clamp(sub.FinalPay, r.SubCh[0].State().Balances[0][r.SubCh[0].Idx()]), Accept: true}, true)
 	if r.Failed != "" {
 		return false
+	}
+	for _, st := range sub.ParentSteps {
+		r.pay(r.Ch, st, false)
+		if r.Failed != "" {
+			return false
+		}
 	}
 	errs := make(chan error, 2)
 	for i := 0; i < 2; i++ {
